@@ -1,5 +1,5 @@
 """C08 — every run returns: structural (SPMD) clauses of termination / shutdown code."""
-from .. import expr as X
+from .. import rules_gvt, expr as X
 from .. import query as Q
 from ..cfg import witness_text
 from . import C07
@@ -45,11 +45,14 @@ def run(ck, progs):
     ck.rule("C08.8", "the control-message broadcast (GVT start, termination) reaches every rank, and one worker is started per thread id and every worker joined: evaluated over the loop indices for 1..8 ranks / threads")
     ck.rule("C08.9", "after a message count the shares of total_sent[] zeroed by threads 0..t-1 cover the entries of ranks 0..n-1 (a stale "
                      "entry makes a rank wait for messages it already received and the round never ends): evaluated for 1..8 ranks x threads")
+    ck.rule("C08.11", "every rank sends its GVT_DONE notice to the one rank that opens GVT rounds (which waits for one notice per rank before "
+                      "the next round; otherwise no further GVT is computed and termination is never detected)")
     ck.rule("C08.10", "no rank is left without a worker thread: lp_global_init, evaluated for 1..12 LPs x 1..8 ranks (ranks > LPs included), "
                       "either keeps >= 1 thread or refuses to start (a rank with no thread never joins a GVT reduction and all others wait for it)")
     for cfg, P in progs.items():
         rules_cover.check_broadcast(ck, P, "C08.8")
         rules_cover.check_rank_has_worker(ck, P, "C08.10")
+        rules_gvt.check_round_completion_notice(ck, P, "C08.11")
         rules_cover.check_partition_clear(ck, P, "C08.9")
         rules_cover.check_spawn_join(ck, P, "C08.8")
         _after_node_barrier(ck, P, cfg)
